@@ -368,7 +368,24 @@ def run(ctx, tier):
                     loc=b.loc(0)))
     if n_can < 1:
         r_can.violations.append(Violation('C12', 'C12.canon', 'oxmpl', 'floor', 'no state constructor embedding an SO2 component found (floor 1)'))
-    return [r_st, r_nan, r_cnt, r_prop, r_can]
+    # ---- C12.range: the SO(2) state constructor stores an angle in [-pi, pi] (interval abstract interpretation)
+    import math
+    from ..interval import Interp
+    r_rng = RuleResult('C12.range', 'SO2State::new stores an angle in [-pi, pi], never NaN, for every finite input')
+    it = Interp(ctx, ctx.core)
+    nr = 0
+    for b in ctx.lib_bodies():
+        if b.kind == 'AssocFn' and b.impl_trait is None and b.name == 'new' and (b.j.get('impl_adt') or '').endswith('so2_state::SO2State'):
+            nr += 1
+            res = {k: v for k, v in it.analyze(b).items() if k[0] == 'ret' and len(k) > 1}
+            ok = bool(res) and all(v.within(-math.pi * (1 + 1e-15), math.pi * (1 + 1e-15)) for v in res.values())
+            r_rng.inst('%s stores %s' % (b.path, {k[1]: str(v) for k, v in res.items()}), ok=ok, site=b.loc(0))
+            if not ok:
+                r_rng.violations.append(Violation('C12', 'C12.range', b.path, 'angle-range',
+                                                  'the stored angle is not confined to [-pi, pi] / may be NaN: %s' % {k[1]: str(v) for k, v in res.items()}, loc=b.loc(0)))
+    if nr < 1:
+        r_rng.violations.append(Violation('C12', 'C12.range', 'oxmpl', 'floor', 'SO2State::new not found'))
+    return [r_st, r_nan, r_cnt, r_prop, r_can, r_rng]
 
 
 def _check_interval(b, fn, facts, lo, hi, fname, r_st, r_nan, oi):
